@@ -27,8 +27,8 @@ EXPLANATION = (
 EXPLANATION_ADD = " Additions: (FIRST-MATCH) only a non-matching entry continues the ACL scan; (RT-hop-predicate) a parsed predicate with an interface part structurally has an AS part; (PAREN-reset) no recursive parse_expr call inherits the caller's binding power."
 EXPLANATION = EXPLANATION + EXPLANATION_ADD
 RESIDUAL = [
-    "ACL first-match semantics and hop-pattern language equality with the documented operators (values over all pattern/path pairs)",
-    "print/parse round trip of hop predicates; insensitivity to redundant parentheses and whitespace",
+    "hop-pattern language equality with the documented operators (values over all pattern/path pairs); of the ACL first-match clause only the scan structure is decided (FIRST-MATCH), not the predicate semantics",
+    "print/parse round trip of hop predicates and insensitivity to redundant parentheses beyond the two necessary conditions RT-hop-predicate and PAREN-reset; whitespace",
     "parser termination as a token-consumption argument (every loop iteration of parse_expr consumes a token): listed, not proved",
 ]
 ASSUMPTIONS = ["BTreeSet / Vec / String operations of std do not panic except for the indexed forms in the PANIC callee table",
